@@ -15,6 +15,11 @@ CONSTANT EmitHistories
 
 TwoApps == <<"a1", "a2">>
 OneApp  == <<"a1">>
+(* a1 gains a second model group at version 1; its evolution 2 targets that group *)
+IntroA1 == [a \in {"a1", "a2"} |-> IF a = "a1" THEN 1 ELSE 0]
+GrpA1   == [a \in {"a1", "a2"} |-> [i \in 1..MaxVer |-> IF a = "a1" /\ i = 2 THEN 2 ELSE 1]]
+NoIntro == [a \in {"a1", "a2"} |-> 0]
+AllG1   == [a \in {"a1", "a2"} |-> [i \in 1..MaxVer |-> 1]]
 
 gvars == <<vars, hist>>
 GView == vars
